@@ -22,6 +22,10 @@ the state before it, the operation and its answer; `final step init ops` is the 
 A served value `(stamp, id)` carries the instant at which it was produced/stored, so `now - stamp` is
 its age.  TTLs are ticks of 1/8 s; `0 < ttl` excludes the "0 = no TTL" convention of the backend.
 
+early after the repair of D44: one recalculation of a key at a time.  A call that finds nothing stored while a recalculation
+of its key is in flight is answered `Res.joined id`: it executes nothing and waits; what it is handed is
+`Early.joinedAnswer` at the `done` operation that completes that recalculation (`early_joined_caller_answer`).
+
 Boundaries mirrored from the code (DESIGN §8, not judged): `early` serves without refreshing at exactly
 `early_ttl`; `soft` recomputes at exactly `soft_ttl`.
 -/
@@ -95,20 +99,22 @@ theorem early_young_served_without_executing (c : Early.Cfg) (httl : 0 < c.ttl) 
   exact Early.call_young hinv o d hc hy
 
 /-- **early: the inner deadline and the hard ttl of a result count from the instant its execution finished**, however
-long the execution took: after any history, a call that finds nothing stored and whose execution takes `d` ticks and
-succeeds stores `(now + d, id)` with inner deadline `now + d + early_ttl`, readable until `now + d + ttl`. -/
+long the execution took: after any history, a call that finds nothing stored (and no recalculation of the key in flight
+to wait for) and whose execution takes `d` ticks and succeeds stores `(now + d, id)` with inner deadline
+`now + d + early_ttl`, readable until `now + d + ttl`. -/
 theorem early_deadlines_count_from_completion (c : Early.Cfg) (httl : 0 < c.ttl) (ops : List DOp) (d : Nat) :
     let st := final (Early.step c) Early.init ops
-    cached3 st.t = none →
+    cached3 st.t = none → st.inflight = [] →
       cached3 (Early.call c st .ok d).1.t = some (st.t.now + d, st.nexec, st.t.now + d + c.early) ∧
       ∀ dt, cached3 (advance (Early.call c st .ok d).1.t dt) =
         if dt < c.ttl then some (st.t.now + d, st.nexec, st.t.now + d + c.early) else none := by
-  intro st hc
+  intro st hc hi
   have key : ∀ dt, cached3 (advance (Early.call c st .ok d).1.t dt) =
       if dt < c.ttl then some (st.t.now + d, st.nexec, st.t.now + d + c.early) else none := by
     intro dt
-    unfold Early.call
-    simp only [hc]
+    rw [Early.call_cold _ _ hc hi]
+    unfold Early.produce
+    simp only [Bool.false_eq_true, if_false]
     unfold cached3 TtlMap.find Early.save
     simp only [advance_m, advance_now, write_now]
     rw [write_m _ _ _ httl]
@@ -122,17 +128,77 @@ theorem early_deadlines_count_from_completion (c : Early.Cfg) (httl : 0 < c.ttl)
   have := key 0
   simpa [advance, httl] using this
 
-/-- **early: at most one refresh at a time, as long as a refresh completes within early_ttl.**  In every
-history in which, whenever a call is made, each refresh in flight was started less than `early_ttl`
-ago (`Early.Timely`), there is never more than one refresh in flight — before every operation and at
-the end.  (Calls keep being answered from the store meanwhile: next theorem.) -/
-theorem early_at_most_one_refresh (c : Early.Cfg) (hearly : 0 < c.early) (ops : List DOp)
-    (htimely : ∀ e ∈ trace (Early.step c) Early.init ops, Early.Timely c e.1 e.2.1) :
+/-- **early: at most one refresh at a time — unconditionally** (the repair of D44; the property asks for it only "as long
+as a refresh completes within early_ttl", and before the repair a recalculation that outlived its lock key, or the stored
+result, was joined by a second and a third one).  In every history — recalculations as slow as one likes, outliving the
+lock key and the stored result — there is never more than one recalculation of the key in flight, before every operation
+and at the end; and a call creates a refresh task only when none is in flight.  (Calls keep being answered from the
+store meanwhile, or wait for the recalculation: next theorems.) -/
+theorem early_at_most_one_refresh (c : Early.Cfg) (ops : List DOp) :
     (final (Early.step c) Early.init ops).inflight.length ≤ 1 ∧
-    ∀ e ∈ trace (Early.step c) Early.init ops, e.1.inflight.length ≤ 1 := by
-  have h := trace_inv (Early.step c) (Early.Single c) (Early.Timely c)
-    (fun s o hs ht => Early.single_step hearly s o hs ht) ops Early.init (Early.single_init c) htimely
-  exact ⟨Early.single_length h.1, fun e he => Early.single_length (h.2 e he).1⟩
+    ∀ e ∈ trace (Early.step c) Early.init ops, e.1.inflight.length ≤ 1 ∧
+      ∀ o d out, e.2.1 = .call o d → e.2.2 = .call out → out.started = true → e.1.inflight = [] := by
+  have h := trace_inv' (Early.step c) Early.Single (fun s o hs => Early.single_step s o hs) ops Early.init Early.single_init
+  refine ⟨h.1, fun e he => ⟨(h.2 e he).1, ?_⟩⟩
+  intro o d out hop hout hs
+  have hans := (h.2 e he).2
+  obtain ⟨s0, op, ans⟩ := e
+  simp only at hop hout hans ⊢
+  subst hop hout
+  simp only [Early.step, Ans.call.injEq] at hans
+  subst hans
+  exact Early.call_started_alone o d hs
+
+/-- **early, while a recalculation of the key is in flight** (after any history): a call that still finds a stored
+result is answered with it, immediately, and touches nothing — whatever its age beyond early_ttl and whether or not the
+lock key has expired meanwhile; a call that finds NOTHING stored (the result reached its ttl) does not execute the
+function a second time: it is parked on the running recalculation (`Res.joined` with that recalculation's ordinal),
+nothing is executed or started, the state is untouched. -/
+theorem early_while_recalculating (c : Early.Cfg) (ops : List DOp) (o : Outcome) (d : Nat) :
+    let st := final (Early.step c) Early.init ops
+    ∀ rid ts rest, st.inflight = (rid, ts) :: rest →
+      (∀ s i x, cached3 st.t = some (s, i, x) → Early.call c st o d = (st, ⟨.stored s i, false, false⟩)) ∧
+      (cached3 st.t = none → Early.call c st o d = (st, ⟨.joined rid, false, false⟩)) := by
+  intro st rid ts rest hi
+  exact ⟨fun s i x hc => Early.call_stale_inflight o d hc (by rw [hi]; simp), fun hc => Early.call_join o d hc hi⟩
+
+/-- **early: a caller parked on a recalculation is handed that recalculation's outcome when it completes** — and only
+then, and only such callers are parked: in every history a call answers `joined rid` only if it found nothing stored and
+the recalculation `rid` is in flight; and when the i-th recalculation in flight completes with outcome `o`, its waiters
+get `o.result now id` — its fresh result stamped with the instant it is handed out (age 0: younger than ttl), its
+exception or the exception of its store step; never a stored result. -/
+theorem early_joined_caller_answer (c : Early.Cfg) (ops : List DOp) :
+    (∀ e ∈ trace (Early.step c) Early.init ops, ∀ o d out rid, e.2.1 = .call o d → e.2.2 = .call out →
+      out.res = .joined rid → cached3 e.1.t = none ∧ (∃ ts rest, e.1.inflight = (rid, ts) :: rest) ∧
+        out.exec = false ∧ out.started = false ∧ (Early.step c e.1 e.2.1).1 = e.1) ∧
+    (∀ i o r, Early.joinedAnswer (final (Early.step c) Early.init ops) i o = some r →
+      (∃ id ts, (final (Early.step c) Early.init ops).inflight[i]? = some (id, ts) ∧
+        r = o.result (final (Early.step c) Early.init ops).t.now id ∧
+        (Early.done c (final (Early.step c) Early.init ops) i o).2 ≠ .noop) ∧
+      (∀ s j, r = .fresh s j → s = (final (Early.step c) Early.init ops).t.now) ∧ (∀ s j, r ≠ .stored s j)) := by
+  constructor
+  · intro e he o d out rid hop hout hr
+    have hans := ((trace_inv' (Early.step c) (fun _ => True) (fun _ _ _ => trivial) ops Early.init trivial).2 e he).2
+    obtain ⟨s0, op, ans⟩ := e
+    simp only at hop hout hans ⊢
+    subst hop hout
+    simp only [Early.step, Ans.call.injEq] at hans ⊢
+    subst hans
+    obtain ⟨h1, h2, h3⟩ := Early.call_joined o d hr
+    rw [h3]
+    exact ⟨h1, h2, rfl, rfl, rfl⟩
+  · intro i o r hj
+    unfold Early.joinedAnswer at hj
+    cases hi : (final (Early.step c) Early.init ops).inflight[i]? with
+    | none => simp [hi] at hj
+    | some p =>
+      obtain ⟨id, ts⟩ := p
+      simp [hi] at hj
+      subst hj
+      refine ⟨⟨id, ts, rfl, rfl, ?_⟩, ?_, ?_⟩
+      · unfold Early.done; simp only [hi]; cases o <;> simp
+      · intro s j h; cases o <;> simp [Outcome.result] at h <;> exact h.1.symm
+      · intro s j h; cases o <;> simp [Outcome.result] at h
 
 /- FULL STATEMENT (does not hold, see `early_foreground_failure_propagates`; recorded as known finding D19):
    theorem early_answers_from_store (c) (httl : 0 < c.ttl) (ops) (o) (d) :
@@ -380,11 +446,12 @@ theorem soft_returned_execution_answers (c : Soft.Cfg) (ops : List DOp) (o : Out
 /-- **early: whenever the function runs inside a call, the caller is handed what that execution produced** —
 its result (stamped with the instant it finished), its exception or the exception of its store step
 (`Outcome.result`) — both when nothing was stored and when the call waited for a foreground refresh (`started`;
-`background=False`, a stale result stored; a refresh that raises: D19); never a stored result.  After any history. -/
+`background=False`, a stale result stored; a refresh that raises: D19); never a stored result; and the function runs
+inside a call only when no recalculation of the key is in flight.  After any history. -/
 theorem early_execution_answers (c : Early.Cfg) (ops : List DOp) (o : Outcome) (d : Nat) :
     let st := final (Early.step c) Early.init ops
     (Early.call c st o d).2.exec = true →
-      (Early.call c st o d).2.res = o.result (st.t.now + d) st.nexec ∧
+      (Early.call c st o d).2.res = o.result (st.t.now + d) st.nexec ∧ st.inflight = [] ∧
       (((Early.call c st o d).2.started = false ∧ cached3 st.t = none) ∨
        ((Early.call c st o d).2.started = true ∧ c.bg = false ∧ ∃ s i x, cached3 st.t = some (s, i, x) ∧ x < st.t.now)) := by
   intro st hx
@@ -436,16 +503,23 @@ example : answers (trace (Early.step ⟨16, 4, true⟩) Early.init earlyHist) =
     [.call ⟨.fresh 0 0, true, false⟩, .ok, .call ⟨.stored 0 0, false, true⟩, .call ⟨.stored 0 0, false, false⟩,
      .ok, .done .stored, .call ⟨.stored 7 1, false, false⟩] := by decide
 
-/-- … and that history satisfies the timeliness hypothesis with a refresh really in flight during a call -/
-example : ∀ e ∈ trace (Early.step ⟨16, 4, true⟩) Early.init earlyHist, Early.Timely ⟨16, 4, true⟩ e.1 e.2.1 := by
-  intro e he o d hop x hx
-  simp only [earlyHist, trace, Early.step, Early.call, Early.done, Early.init, List.mem_cons, List.not_mem_nil,
-    or_false] at he
-  rcases he with rfl | rfl | rfl | rfl | rfl | rfl | rfl <;> revert x hx <;> decide
-
-/-- without timeliness two refreshes do overlap (the second call comes after the first refresh's lock expired) -/
-example : (final (Early.step ⟨16, 4, true⟩) Early.init [.call .ok 0, .adv 5, .call .ok 0, .adv 4, .call .ok 0]).inflight.length = 2 := by
+/-- a recalculation that outlives its lock key (a call 4 ticks after it started: the lock key is gone) is NOT joined by
+a second one: the call is served from the store (before D44 was repaired: `inflight.length = 2`) -/
+example : (final (Early.step ⟨16, 4, true⟩) Early.init [.call .ok 0, .adv 5, .call .ok 0, .adv 4, .call .ok 0]).inflight.length = 1 := by
   decide
+
+/-- … and one that outlives the stored result is waited for: the result `(0,0)` is gone at 16, the calls at 17 and 18 find
+nothing, execute nothing and are parked on recalculation 1; it completes at 19 and they are handed `(19, 1)`; the next
+call is served that result. -/
+example : answers (trace (Early.step ⟨16, 4, true⟩) Early.init
+      [.call .ok 0, .adv 5, .call .ok 0, .adv 12, .call .ok 3, .adv 1, .call .listed 0, .adv 1, .done 0 .ok, .call .listed 0]) =
+    [.call ⟨.fresh 0 0, true, false⟩, .ok, .call ⟨.stored 0 0, false, true⟩, .ok, .call ⟨.joined 1, false, false⟩, .ok,
+     .call ⟨.joined 1, false, false⟩, .ok, .done .stored, .call ⟨.stored 19 1, false, false⟩] := by decide
+
+example : Early.joinedAnswer (final (Early.step ⟨16, 4, true⟩) Early.init
+      [.call .ok 0, .adv 5, .call .ok 0, .adv 12, .call .ok 3, .adv 1, .call .listed 0, .adv 1]) 0 .ok = some (.fresh 19 1) ∧
+    Early.joinedAnswer (final (Early.step ⟨16, 4, true⟩) Early.init
+      [.call .ok 0, .adv 5, .call .ok 0, .adv 12, .call .ok 3]) 0 .listed = some (.raised .listed) := by decide
 
 /-- soft, ttl 2 s, soft_ttl ½ s: fresh; served young; at exactly soft_ttl recomputed, the listed failure
 serves the stale value; an unlisted failure raises; after ttl a listed failure raises as well. -/
